@@ -182,7 +182,9 @@ impl EarlyMsg {
                                "HTTP/1.1 417 Expectation Failed\r\nDate: Mon, 27 Jul 2009 12:28:53 GMT\r\nContent-Length: 0\r\n\r\n",
                                "HTTP/1.1 401 Unauthorized\r\nWWW-Authenticate: Basic realm=\"a realm with a rather long descriptive name\", charset=\"UTF-8\"\r\nContent-Length: 0\r\n\r\n",
                                "HTTP/1.1 500 Internal Server Error\r\nContent-Type: text/plain; charset=utf-8\r\nContent-Length: 0\r\n\r\n",
-                               "HTTP/1.1 999 Request denied\r\nContent-Length: 0\r\n\r\n", "HTTP/1.1 302 Found\r\nLocation: /login\r\nContent-Length: 0\r\n\r\n"][variant % 9].into(),
+                               "HTTP/1.1 999 Request denied\r\nContent-Length: 0\r\n\r\n", "HTTP/1.1 302 Found\r\nLocation: /login\r\nContent-Length: 0\r\n\r\n",
+                               // what a CDN or a proxy sends: a couple of dozen fields
+                               "HTTP/1.1 403 Forbidden\r\nDate: d\r\nServer: s\r\nVia: v\r\nX-Cache: c\r\nX-Id: 1\r\nAge: 0\r\nVary: a\r\nEtag: e\r\nX-A: 1\r\nX-B: 2\r\nX-C: 3\r\nX-D: 4\r\nX-E: 5\r\nX-F: 6\r\nX-G: 7\r\nX-H: 8\r\nX-I: 9\r\nX-J: 10\r\nX-K: 11\r\nX-L: 12\r\nContent-Length: 0\r\n\r\n"][variant % 10].into(),
             _ => ["HTTP/1.1 403 Forbidden\r\nConnection: close\r\nX-A: b\r\n\r\n", "HTTP/1.0 403 Forbidden\r\nConnection: close\r\nX-A: b\r\n\r\n"][variant % 2].into(),
         };
         // now and then the server ends its lines with a bare LF (outside the grammar, accepted by common parsers)
@@ -269,6 +271,9 @@ impl Sim {
         let prep = FRAMING_IN_PREPARE.with(|x| x.get()) && rq.framing != "default";
         let built = guarded(|| Flow::new(rq.request()));
         FRAMING_IN_PREPARE.with(|x| x.set(false));
+        if REPEATED_HEADERS.with(|x| x.replace(false)) {
+            t.class("flow:repeated-header-names");
+        }
         let mut f = built?.ok()?;
         if prep {
             // the way ureq itself declares the framing: on the flow, after looking at the body it was given
